@@ -35,7 +35,7 @@ tvars == <<dur, pend, gens, hist, done, ack, fl, now, conf, l, cflags, real, sna
 Rec == ndJsonDeserialize(IOEnv.TRACE)
 Ev == Rec[l]
 Keys == 1 .. conf.nk
-NoReal == [on |-> FALSE, units |-> {}, ok |-> TRUE, err |-> "", kv |-> <<>>, len |-> 0, extra |-> 0, now |-> 0,
+NoReal == [on |-> FALSE, units |-> {}, torn |-> {}, ok |-> TRUE, err |-> "", kv |-> <<>>, len |-> 0, extra |-> 0, now |-> 0,
            at |-> <<>>, free |-> {}]
 NoSnap == [on |-> FALSE, recs |-> <<>>, free |-> <<>>, usage |-> 0, len |-> 0]
 
@@ -175,6 +175,7 @@ TSettled == /\ Ev.e = "settled"
 TRec == /\ Ev.e = "rec"
         /\ real' = [on |-> TRUE,
                     units |-> {<<Ev.units[i][1], Ev.units[i][2]>> : i \in 1 .. Len(Ev.units)},
+                    torn |-> {<<Ev.torn[i][1], Ev.torn[i][2]>> : i \in 1 .. Len(Ev.torn)},
                     ok |-> Ev.res.ok, err |-> Ev.res.err,
                     kv |-> [k \in Keys |-> Ev.res.kv[k]], len |-> Ev.res.len, extra |-> Ev.res.extra,
                     now |-> Ev.now,
@@ -197,6 +198,12 @@ SubsetsOf(p) ==
   ELSE {{us[i] : i \in 1 .. q} : q \in 0 .. n}
        \cup {{us[i]} : i \in 1 .. n} \cup {U \ {us[i]} : i \in 1 .. n}
 
+\* A journal slot image longer than one 512-byte sector (header 40 bytes + 8 per entry) can be torn:
+\* the slot then fails its checksum.  One torn unit at a time.
+TearMin == 60
+Tearable(p, u) == p[u[1]].kind = "j" /\ ~p[u[1]].v.z /\ ~p[u[1]].v.bad /\ Len(p[u[1]].v.exts) >= TearMin
+TornSetsOf(p, S) == {{}} \cup {{u} : u \in {x \in S : Tearable(p, x)}}
+
 Expd(g, t) == g # 0 /\ conf.ttl /\ gens[g].exp # 0 /\ t > gens[g].exp
 InWindow(k, g) == \E i \in ack[k] .. Len(hist[k]) : hist[k][i] = g
 \* what a reopened store may expose for k: a state of the window, or nothing when the state of the
@@ -217,8 +224,10 @@ AspectsOf(r, hs, ak, gs, t, cf) ==
        \cup (IF r.ghosts # {} THEN {"ghost"} ELSE {})
 FlagsOf(d, p, gs, hs, ak, t, cf) ==
   IF cf.nk = 0 THEN {} ELSE
-  UNION {UNION {AspectsOf(r, hs, ak, gs, t, cf)
-                  : r \in {Recover(ApplyUnits(d, p, S, 1), gs, 1 .. cf.nk, t, cf.ttl, FALSE)}}
+  UNION {UNION {UNION {AspectsOf(r, hs, ak, gs, t, cf)
+                         : r \in {Recover(IF Tn = {} THEN ApplyUnits(d, p, S, 1) ELSE ApplyUnitsT(d, p, S, Tn, 1),
+                                          gs, 1 .. cf.nk, t, cf.ttl, FALSE)}}
+                  : Tn \in TornSetsOf(p, S)}
          : S \in SubsetsOf(p)}
 
 Changes == IF conf'.cc = 3 THEN FALSE                             \* only what the real recovery returned
@@ -257,7 +266,7 @@ RealPartition ==
 \* conformance of recovery.rs with the abstract reader (a deviation, not a verdict)
 RecConforms ==
   real.on =>
-    \A r \in {Recover(ApplyUnits(dur, pend, real.units, 1), gens, Keys, real.now, conf.ttl, FALSE)} :
+    \A r \in {Recover(ApplyUnitsT(dur, pend, real.units, real.torn, 1), gens, Keys, real.now, conf.ttl, FALSE)} :
     /\ r.ok = real.ok
     /\ r.ok => \A k \in Keys : r.kv[k] = real.kv[k]
     /\ ~r.ok => r.err = real.err
